@@ -11,7 +11,7 @@ ID = "C08"
 READY = True
 LEVEL = "exploration"
 WORKERS = {"quick": 8, "thorough": 16}
-BUDGET = {"quick": 60, "thorough": 420}
+BUDGET = {"quick": 150, "thorough": 420}
 MIN_NONTRIVIAL = {"quick": 2000, "thorough": 30000}
 REQUIRED_HOOKS = ["evaluate:I", "evaluate:C", "direct", "IntType.__lt__", "IntType.__eq__", "ListType.__eq__", "MapType.__eq__", "MapType.__ne__", "DoubleType.__eq__", "UintType.__eq__"]
 RULE = (
